@@ -64,6 +64,11 @@ func NewVerifier(name, value string) verify.RequestResponseVerifier {
 // header for name. An error will be added to the contained *MultiError for
 // every unmatched request.
 func (v *verifier) ModifyRequest(req *http.Request) error {
+	// skip requests to API
+	if ctx := martian.NewContext(req); ctx != nil && ctx.IsAPIRequest() {
+		return nil
+	}
+
 	h := proxyutil.RequestHeader(req)
 
 	vs, ok := h.All(v.name)
@@ -90,6 +95,11 @@ func (v *verifier) ModifyRequest(req *http.Request) error {
 // header for name. An error will be added to the contained *MultiError for
 // every unmatched response.
 func (v *verifier) ModifyResponse(res *http.Response) error {
+	// skip responses to API requests
+	if ctx := martian.NewContext(res.Request); ctx != nil && ctx.IsAPIRequest() {
+		return nil
+	}
+
 	h := proxyutil.ResponseHeader(res)
 
 	vs, ok := h.All(v.name)
